@@ -349,3 +349,70 @@ def dynamic_feature_scan(prog: Program) -> List[str]:
             # (after inlining); a name it cannot resolve is reported there as an unsupported construct.  The alias analysis
             # treats such a setattr as a store to every field.
     return bad
+
+
+# --------------------------------------------------------------------------- match statements
+def desugar_match(node: 'ast.Match'):
+    """`match subject: case ...` over value / singleton / or / wildcard / capture patterns as the equivalent if-elif chain
+    (statements; the first one binds the subject when it is not a plain name). None when a pattern is outside that fragment."""
+    pre = []
+    subj = node.subject
+    if not isinstance(subj, ast.Name):
+        tmp = ast.Name(id='__match_subject__', ctx=ast.Store())
+        pre.append(ast.copy_location(ast.Assign(targets=[tmp], value=subj, lineno=node.lineno), node))
+        subj = ast.Name(id='__match_subject__', ctx=ast.Load())
+
+    def test_of(pat):
+        """(test expression or True for irrefutable, captured name or None)"""
+        if isinstance(pat, ast.MatchValue):
+            return ast.Compare(left=subj, ops=[ast.Eq()], comparators=[pat.value]), None
+        if isinstance(pat, ast.MatchSingleton):
+            return ast.Compare(left=subj, ops=[ast.Is()], comparators=[ast.Constant(value=pat.value)]), None
+        if isinstance(pat, ast.MatchAs) and pat.pattern is None:
+            return True, pat.name
+        if isinstance(pat, ast.MatchAs):
+            t, nm = test_of(pat.pattern)
+            return (None, None) if (t is None or nm is not None) else (t, pat.name)
+        if isinstance(pat, ast.MatchOr):
+            ts = [test_of(p_) for p_ in pat.patterns]
+            if any(t is None or nm is not None for t, nm in ts):
+                return None, None
+            if any(t is True for t, _ in ts):
+                return True, None
+            return ast.BoolOp(op=ast.Or(), values=[t for t, _ in ts]), None
+        return None, None
+
+    chain = None
+    tail = None
+    for case in node.cases:
+        t, nm = test_of(case.pattern)
+        if t is None:
+            return None
+        body = list(case.body)
+        if nm is not None:
+            if case.guard is not None:
+                return None
+            body = [ast.Assign(targets=[ast.Name(id=nm, ctx=ast.Store())], value=subj, lineno=case.pattern.lineno)] + body
+        if case.guard is not None:
+            t = case.guard if t is True else ast.BoolOp(op=ast.And(), values=[t, case.guard])
+        if t is True:
+            if tail is None:
+                chain = body
+            else:
+                tail.orelse = body
+            tail = 'closed'
+            break
+        nif = ast.If(test=t, body=body, orelse=[])
+        ast.copy_location(nif, case.pattern)
+        if tail is None:
+            chain = [nif]
+        else:
+            tail.orelse = [nif]
+        tail = nif
+    out = pre + (chain or [])
+    for n in out:
+        for sub in ast.walk(n):
+            if not hasattr(sub, 'lineno') and isinstance(sub, (ast.expr, ast.stmt)):
+                ast.copy_location(sub, node)
+        ast.fix_missing_locations(n)
+    return out
